@@ -261,6 +261,9 @@ func GenContentAtoms(t *rapid.T, max int) []Op {
 		switch op.K {
 		case "suicide", "create":
 			op = Op{K: "setstate", A: op.A, S: 1, N: 2}
+		case "setparent":
+			// the value it writes depends on where the last IntermediateRoot fell: not content
+			op = Op{K: "setstate", A: op.A, S: op.S, N: 3}
 		case "sreset":
 			op = Op{K: "statreward", M: 1, N: 7}
 		case "setnonce":
